@@ -462,6 +462,9 @@ VARIANTS["C16"] = [
 
 # ------------------------------------------------------------------------------------------------ C15
 VARIANTS["C15"] = [
+    V("vectorised-donors-exclude-outside", "fire", VO, [("    # ephys_bad_channels(x, 30000, channel_labels[0], channel_labels[1])\n\n    # we interpolate only noisy channels or dead channels (0: good), out of the brain channels are left\n    bad_channels = gp.where(np.logical_or(channel_labels == 1, channel_labels == 2))[0]\n    for i in bad_channels:\n        # compute the weights to apply to neighbouring traces\n        offset = gp.abs(x - x[i] + 1j * (y - y[i]))\n        weights = gp.exp(-((offset / kriging_distance_um) ** p))\n        weights[bad_channels] = 0\n        weights[weights < 0.005] = 0\n        weights = weights / gp.sum(weights)\n        imult = gp.where(weights > 0)[0]\n        if imult.size == 0:\n            data[i, :] = 0\n            continue\n        data[i, :] = gp.matmul(weights[imult], data[imult, :])\n    # from viewephys.gui import viewephys\n    # f = viewephys(data.T, fs=1/30, h=h, title='interp2')\n    return data\n", "    # ephys_bad_channels(x, 30000, channel_labels[0], channel_labels[1])\n\n    # we interpolate only noisy channels or dead channels (0: good), out of the brain channels are left\n    labels = gp.asarray(channel_labels)\n    flagged = gp.where(labels != 0)[0]\n    bad_channels = gp.where(gp.logical_or(labels == 1, labels == 2))[0]\n    if bad_channels.size == 0:\n        return data\n    # compute the weights to apply to neighbouring traces for all of the bad channels at once:\n    # one row per bad channel, one column per channel of the probe\n    xy = x + 1j * y\n    offset = gp.abs(xy[gp.newaxis, :] - xy[bad_channels, gp.newaxis])\n    weights = gp.exp(-((offset / kriging_distance_um) ** p))\n    weights[:, flagged] = 0\n    weights[weights < 0.005] = 0\n    wsum = gp.sum(weights, axis=1, keepdims=True)\n    # a bad channel without any usable neighbour keeps a row of zeros and is therefore set to 0\n    weights = weights / gp.where(wsum > 0, wsum, 1)\n    # only a handful of traces around the bad channels take part in the product\n    imult = gp.where(gp.any(weights > 0, axis=0))[0]\n    data[bad_channels, :] = gp.matmul(weights[:, imult], data[imult, :])\n    # from viewephys.gui import viewephys\n    # f = viewephys(data.T, fs=1/30, h=h, title='interp2')\n    return data\n")], ("D2",), "vectorised repair that also drops outside-brain channels from the donors"),
+    V("twin-vectorised-repair", "twin", VO, [("    # ephys_bad_channels(x, 30000, channel_labels[0], channel_labels[1])\n\n    # we interpolate only noisy channels or dead channels (0: good), out of the brain channels are left\n    bad_channels = gp.where(np.logical_or(channel_labels == 1, channel_labels == 2))[0]\n    for i in bad_channels:\n        # compute the weights to apply to neighbouring traces\n        offset = gp.abs(x - x[i] + 1j * (y - y[i]))\n        weights = gp.exp(-((offset / kriging_distance_um) ** p))\n        weights[bad_channels] = 0\n        weights[weights < 0.005] = 0\n        weights = weights / gp.sum(weights)\n        imult = gp.where(weights > 0)[0]\n        if imult.size == 0:\n            data[i, :] = 0\n            continue\n        data[i, :] = gp.matmul(weights[imult], data[imult, :])\n    # from viewephys.gui import viewephys\n    # f = viewephys(data.T, fs=1/30, h=h, title='interp2')\n    return data\n", "    # ephys_bad_channels(x, 30000, channel_labels[0], channel_labels[1])\n\n    # we interpolate only noisy channels or dead channels (0: good), out of the brain channels are left\n    labels = gp.asarray(channel_labels)\n    flagged = gp.where(labels != 0)[0]\n    bad_channels = gp.where(gp.logical_or(labels == 1, labels == 2))[0]\n    if bad_channels.size == 0:\n        return data\n    # compute the weights to apply to neighbouring traces for all of the bad channels at once:\n    # one row per bad channel, one column per channel of the probe\n    xy = x + 1j * y\n    offset = gp.abs(xy[gp.newaxis, :] - xy[bad_channels, gp.newaxis])\n    weights = gp.exp(-((offset / kriging_distance_um) ** p))\n    weights[:, bad_channels] = 0\n    weights[weights < 0.005] = 0\n    wsum = gp.sum(weights, axis=1, keepdims=True)\n    # a bad channel without any usable neighbour keeps a row of zeros and is therefore set to 0\n    weights = weights / gp.where(wsum > 0, wsum, 1)\n    # only a handful of traces around the bad channels take part in the product\n    imult = gp.where(gp.any(weights > 0, axis=0))[0]\n    data[bad_channels, :] = gp.matmul(weights[:, imult], data[imult, :])\n    # from viewephys.gui import viewephys\n    # f = viewephys(data.T, fs=1/30, h=h, title='interp2')\n    return data\n")], (), "vectorised repair, donors exclude exactly dead / noisy channels"),
+    V("vectorised-zero-rows-not-columns", "fire", VO, [("    # ephys_bad_channels(x, 30000, channel_labels[0], channel_labels[1])\n\n    # we interpolate only noisy channels or dead channels (0: good), out of the brain channels are left\n    bad_channels = gp.where(np.logical_or(channel_labels == 1, channel_labels == 2))[0]\n    for i in bad_channels:\n        # compute the weights to apply to neighbouring traces\n        offset = gp.abs(x - x[i] + 1j * (y - y[i]))\n        weights = gp.exp(-((offset / kriging_distance_um) ** p))\n        weights[bad_channels] = 0\n        weights[weights < 0.005] = 0\n        weights = weights / gp.sum(weights)\n        imult = gp.where(weights > 0)[0]\n        if imult.size == 0:\n            data[i, :] = 0\n            continue\n        data[i, :] = gp.matmul(weights[imult], data[imult, :])\n    # from viewephys.gui import viewephys\n    # f = viewephys(data.T, fs=1/30, h=h, title='interp2')\n    return data\n", "    # ephys_bad_channels(x, 30000, channel_labels[0], channel_labels[1])\n\n    # we interpolate only noisy channels or dead channels (0: good), out of the brain channels are left\n    labels = gp.asarray(channel_labels)\n    flagged = gp.where(labels != 0)[0]\n    bad_channels = gp.where(gp.logical_or(labels == 1, labels == 2))[0]\n    if bad_channels.size == 0:\n        return data\n    # compute the weights to apply to neighbouring traces for all of the bad channels at once:\n    # one row per bad channel, one column per channel of the probe\n    xy = x + 1j * y\n    offset = gp.abs(xy[gp.newaxis, :] - xy[bad_channels, gp.newaxis])\n    weights = gp.exp(-((offset / kriging_distance_um) ** p))\n    weights[bad_channels, :] = 0\n    weights[weights < 0.005] = 0\n    wsum = gp.sum(weights, axis=1, keepdims=True)\n    # a bad channel without any usable neighbour keeps a row of zeros and is therefore set to 0\n    weights = weights / gp.where(wsum > 0, wsum, 1)\n    # only a handful of traces around the bad channels take part in the product\n    imult = gp.where(gp.any(weights > 0, axis=0))[0]\n    data[bad_channels, :] = gp.matmul(weights[:, imult], data[imult, :])\n    # from viewephys.gui import viewephys\n    # f = viewephys(data.T, fs=1/30, h=h, title='interp2')\n    return data\n")], ("D2",), "zeroes rows of the weight matrix instead of donor columns"),
     V("label-set-only-dead", "fire", VO, [("gp.where(np.logical_or(channel_labels == 1, channel_labels == 2))[0]", "gp.where(channel_labels == 1)[0]")], ("D1",), "noisy channels left in"),
     V("label-set-includes-outside", "fire", VO, [("gp.where(np.logical_or(channel_labels == 1, channel_labels == 2))[0]", "gp.where(channel_labels > 0)[0]")], ("D1",), "outside-brain channels rewritten"),
     V("store-neighbour-row", "fire", VO, [("        data[i, :] = gp.matmul(weights[imult], data[imult, :])\n", "        data[i, :] = gp.matmul(weights[imult], data[imult, :])\n        data[imult[0], :] = data[i, :]\n")], ("D1",), ""),
